@@ -2,6 +2,7 @@ CONSTANTS
   Dev = {}
   Alphabet <- AlphaTok
   MaxLen = 5
+  Prune = FALSE
   DepthProbe = {1, 256}
 INIT MInit
 NEXT MNext
